@@ -208,6 +208,24 @@ class ProgGen(object):
         n = r.randint(1, o["max_steps"])
         # steps: placeholders <x> make per-row final texts
         steps = self.steps(n, "x", values or ["none"])
+        if r.random() < o.get("p_reserved_step", 0.0):
+            # a documented special placeholder in the TEXT of one outline step ("... row <row.index>"): rendered per row like a column
+            cands = [st for st in steps if "<x>" in st["text"]]
+            if cands:
+                st = r.choice(cands)
+                old, ph = st["text"], r.choice(["row.index", "row.id", "examples.index"])
+                for ei, e in enumerate(examples):
+                    xi = e["header"].index("x")
+                    for ri, row in enumerate(e["rows"]):
+                        val = {"row.index": str(ri + 1), "row.id": "%d.%d" % (ei + 1, ri + 1), "examples.index": str(ei + 1)}[ph]
+                        of = old.replace("<x>", row[xi])
+                        nf = "%s no <%s>" % (of, ph)
+                        nf = nf.replace("<%s>" % ph, val)
+                        if of in self.outcomes:
+                            self.outcomes[nf] = self.outcomes[of]
+                            self.flavour[nf] = self.flavour.get(of, "sync")
+                st["text"] = "%s no <%s>" % (old, ph)
+                self.reserved_in_step_text = True
         return {"kind": "outline", "tags": self.tags(extra), "name": name, "desc": self.desc(),
                 "steps": steps, "examples": examples}
 
@@ -284,6 +302,8 @@ class ProgGen(object):
         prog = {"features": feats, "outcomes": dict(self.outcomes), "flavour": dict(self.flavour)}
         if getattr(self, "twin_rule_names", False):
             prog["twin_rule_names"] = True
+        if getattr(self, "reserved_in_step_text", False):
+            prog["reserved_in_step_text"] = True
         return prog
 
 
@@ -326,8 +346,8 @@ def iter_scenario_instances(feature):
                         rid = "%d.%d" % (ei + 1, ri + 1)
                         name = "%s -- @%s %s" % (it["name"], rid, ex.get("name", ""))
                         tags = []
+                        reserved = {"row.index": str(ri + 1), "examples.index": str(ei + 1), "row.id": rid, "examples.name": ex.get("name", "")}
                         for t in it["tags"]:
-                            reserved = {"row.index": str(ri + 1), "examples.index": str(ei + 1), "row.id": rid, "examples.name": ex.get("name", "")}
                             t2 = substitute(t, ex["header"], row, reserved) if ("<" in t and ">" in t) else t
                             if "<" in t2 and ">" in t2:
                                 continue
@@ -337,7 +357,7 @@ def iter_scenario_instances(feature):
                         outline_plain = [t for t in it["tags"] if not ("<" in t and ">" in t)]
                         yield {"name": name, "own_tags": tags, "anc_tags": anc_tags + [outline_plain], "kind": "row",
                                "steps": [dict(s, final=substitute(s["text"], ex["header"], row), origin="bg") for s in bgs] +
-                                        [dict(s, final=substitute(s["text"], ex["header"], row), origin="own") for s in it["steps"]],
+                                        [dict(s, final=substitute(s["text"], ex["header"], row, reserved), origin="own") for s in it["steps"]],
                                "n_bg": len(bgs), "path": path, "outline": it["name"], "node": it, "row": (ei, ri)}
 
     for x in walk(feature, [feature["tags"]], [], [feature["name"]]):
